@@ -250,6 +250,81 @@ fn gen_spread(rng: &mut Rng, round: usize) -> Src {
 	Src { fmt: TileFormat::PBF, comp: *rng.pick(&[TileCompression::Uncompressed, TileCompression::Gzip, TileCompression::Brotli]), tiles }
 }
 
+/// payload sizes around the thresholds of the writers: 1000 (de-duplication of the versatiles writer,
+/// `blob.len() < 1000`), 8192 (capacity of the `BufWriter` in `DataWriterFile`: larger blobs bypass the buffer)
+fn gen_threshold(rng: &mut Rng, round: usize) -> Src {
+	let sizes: &[usize] = if round % 2 == 0 { &[999, 1000, 1001, 999, 1000, 1001, 1] } else { &[8191, 8192, 8193, 8191, 16384, 3, 8192] };
+	let z = 9u8;
+	let mut tiles = vec![];
+	let dup_a = rng.bytes(sizes[0]);
+	for (k, sz) in sizes.iter().enumerate() {
+		// both sides of the block border at 255/256, duplicates of the first payload at the same sizes
+		let c = TileCoord3::new(254 + k as u32, 255 + (k as u32 % 2), z).unwrap();
+		let b = if k == 3 { dup_a.clone() } else if k == 0 { dup_a.clone() } else { rng.bytes(*sz) };
+		tiles.push((c, b));
+	}
+	tiles.sort_by_key(|(c, _)| (c.z, c.y, c.x));
+	Src { fmt: TileFormat::PNG, comp: *rng.pick(&[TileCompression::Uncompressed, TileCompression::Gzip, TileCompression::Brotli]), tiles }
+}
+
+/// 130 × 130 tiles at zoom 8 (> 16384 entries): the PMTiles writer needs leaf directories (4096-entry leaves,
+/// 16257-byte root limit); the versatiles writer gets a full 256-block plus neighbours
+fn gen_leafy() -> Src {
+	let mut tiles = vec![];
+	for x in 0..130u32 {
+		for y in 0..130u32 {
+			let c = TileCoord3::new(x, y, 8).unwrap();
+			let mut b = format!("t{x}/{y} ").into_bytes();
+			b.extend(std::iter::repeat(b'.').take(((x * 7 + y * 13) % 23) as usize));
+			tiles.push((c, b));
+		}
+	}
+	tiles.sort_by_key(|(c, _)| (c.z, c.y, c.x));
+	Src { fmt: TileFormat::PBF, comp: TileCompression::Uncompressed, tiles }
+}
+
+/// observation outside the property's scope (it names .versatiles and .pmtiles): a tar archive has no
+/// completion marker a reader could insist on – what do byte prefixes of a written archive open as?
+fn tar_prefix_observation(args: &Args, out: &mut Out, rng: &mut Rng) {
+	use versatiles_container::{TarTilesReader, TarTilesWriter};
+	let src = gen_src(rng, false);
+	let path = args.out.join("c12_obs.tar");
+	let rt = tokio::runtime::Builder::new_current_thread().enable_all().build().unwrap();
+	let mut mem = src.mem();
+	if rt.block_on(async { TarTilesWriter::write_to_path(&mut mem, &path).await }).is_err() {
+		return;
+	}
+	let bytes = std::fs::read(&path).unwrap_or_default();
+	let (mut fails, mut all, mut fewer, mut panics) = (0, 0, 0, 0);
+	let cut_path = args.out.join("c12_obs_cut.tar");
+	let mut cuts: Vec<usize> = (0..=bytes.len() / 512).map(|k| k * 512).collect();
+	cuts.extend((0..10).map(|_| rng.below(bytes.len() as u64 + 1) as usize));
+	for k in cuts {
+		std::fs::write(&cut_path, &bytes[..k.min(bytes.len())]).unwrap();
+		let r = catch(|| {
+			rt.block_on(async {
+				let reader = TarTilesReader::open_path(&cut_path)?;
+				let mut n = 0;
+				for (c, b) in &src.tiles {
+					if matches!(reader.get_tile_data(c).await, Ok(Some(g)) if g.as_slice() == b.as_slice()) {
+						n += 1;
+					}
+				}
+				anyhow::Ok(n)
+			})
+		});
+		match r {
+			Err(_) => panics += 1,
+			Ok(Err(_)) => fails += 1,
+			Ok(Ok(n)) if n == src.tiles.len() => all += 1,
+			Ok(Ok(_)) => fewer += 1,
+		}
+	}
+	out.extra.insert("observation_tar_prefixes".into(), json!({"archive_bytes": bytes.len(), "tiles": src.tiles.len(), "prefixes_open_fails": fails, "prefixes_open_with_all_tiles": all, "prefixes_open_with_FEWER_tiles": fewer, "prefixes_panic": panics}));
+	let _ = std::fs::remove_file(&cut_path);
+	let _ = std::fs::remove_file(&path);
+}
+
 fn record(src: &Src, container: char) -> Result<(Vec<Op>, Vec<u8>), String> {
 	let rt = tokio::runtime::Builder::new_current_thread().enable_all().build().unwrap();
 	let mut mem = src.mem();
@@ -349,7 +424,8 @@ fn open_and_compare(rt: &tokio::runtime::Runtime, container: char, bytes: &[u8],
 					if b.count_tiles() <= 4096 {
 						levels.push(b.clone());
 					} else {
-						for (c, _) in src.tiles.iter().filter(|(c, _)| c.z == b.level && b.x_min <= c.x && c.x <= b.x_max && b.y_min <= c.y && c.y <= b.y_max) {
+						let stride = (src.tiles.len() / 64).max(1);
+						for (c, _) in src.tiles.iter().step_by(stride).filter(|(c, _)| c.z == b.level && b.x_min <= c.x && c.x <= b.x_max && b.y_min <= c.y && c.y <= b.y_max) {
 							let (x0, y0) = (c.x.saturating_sub(1).max(b.x_min), c.y.saturating_sub(1).max(b.y_min));
 							let (x1, y1) = ((c.x + 1).min(b.x_max), (c.y + 1).min(b.y_max));
 							if let Ok(nb) = TileBBox::new(b.level, x0, y0, x1, y1) {
@@ -363,7 +439,9 @@ fn open_and_compare(rt: &tokio::runtime::Runtime, container: char, bytes: &[u8],
 						streamed.insert((c.z, c.x, c.y), blob.into_vec());
 					}
 				}
-				for (c, b) in &src.tiles {
+				let sampled = src.tiles.len() > 64 && pyramid.iter_levels().any(|b| b.count_tiles() > 4096);
+				let stride = if sampled { (src.tiles.len() / 64).max(1) } else { 1 };
+				for (c, b) in src.tiles.iter().step_by(stride) {
 					if streamed.get(&(c.z, c.x, c.y)) != Some(b) && bad.is_none() {
 						bad = Some(format!("tile {}/{}/{} is not delivered intact by streaming the advertised levels", c.z, c.x, c.y));
 					}
@@ -383,6 +461,33 @@ fn open_and_compare(rt: &tokio::runtime::Runtime, container: char, bytes: &[u8],
 
 fn choose_cuts(rng: &mut Rng, ops: &[Op], all_header_cuts: bool) -> Vec<(usize, usize)> {
 	let mut cuts = vec![];
+	if ops.len() > 2000 {
+		// tens of thousands of appends (PMTiles with leaf directories): sampled op-prefixes and byte cuts in the
+		// body, every operation boundary of the last six operations, the header fields
+		let n = ops.len();
+		for _ in 0..14 {
+			let i = rng.range(1, n as u64 - 7) as usize;
+			cuts.push((i, 0));
+			if ops[i].size() > 1 {
+				cuts.push((i, rng.range(1, ops[i].size() as u64 - 1) as usize));
+			}
+		}
+		for i in n - 6..n {
+			cuts.push((i, 0));
+			let sz = ops[i].size();
+			if sz > 1 && !matches!(ops[i], Op::SetPosition(_)) {
+				if matches!(ops[i], Op::WriteStart(_)) {
+					cuts.extend([7usize, 8, 16, 64, 96, 97, 98, 99, 100, 101, 102, 126].iter().filter(|k| **k < sz).map(|k| (i, *k)));
+				} else {
+					cuts.extend([1, sz / 2, sz - 1].iter().map(|k| (i, *k)));
+				}
+			}
+		}
+		cuts.push((n, 0));
+		cuts.sort();
+		cuts.dedup();
+		return cuts;
+	}
 	for (i, op) in ops.iter().enumerate() {
 		cuts.push((i, 0)); // op-prefix
 		match op {
@@ -688,7 +793,13 @@ fn judge(out: &mut Out, rng: &mut Rng, laws: &mut Laws, src: &Src, container: ch
 	}
 	let line = format!("{head} {} {} {tail}", cuts.len(), cuts.iter().map(|(i, k)| format!("{}:{k}", i + shift)).collect::<Vec<_>>().join(" "));
 	let nontrivial = cuts.iter().any(|(i, k)| *k > 0 && *i < ops.len());
-	out.case(&line, &letters, nontrivial);
+	if line.len() <= 400_000 {
+		out.case(&line, &letters, nontrivial);
+	} else {
+		// too large for the line protocol (hundreds of KB of blobs): direct oracle only
+		out.count("cases_without_model_line");
+		out.eval(&format!("{}/{}", &line[..200], line.len()), nontrivial);
+	}
 	out.count(&format!("cases_{}_{container}_{}", run.target, comp_name(src.comp)));
 	out.count_n("cuts", cuts.len() as u64);
 	out.count_n("ops", ops.len() as u64);
@@ -785,6 +896,24 @@ pub fn run(args: &Args) {
 		// a pmtiles file is ≥ 16 KiB: fewer cases carry all 127 header cuts
 		emit(&mut out, &mut rng, &mut laws, &src, 'p', i % 3 == 0, None);
 	}
+	// thresholds of the writers (1000-byte de-duplication, 8192-byte BufWriter): in memory and through the real file writer
+	for round in 0..args.n(2, 6) {
+		let src = gen_threshold(&mut rng, round);
+		emit(&mut out, &mut rng, &mut laws, &src, 'v', true, None);
+		emit(&mut out, &mut rng, &mut laws, &src, 'p', false, None);
+		let other = gen_src(&mut rng, false);
+		emit_overwrite(&mut out, &mut rng, &mut laws, &args.out, &other, &src, 'v', false);
+		emit_overwrite(&mut out, &mut rng, &mut laws, &args.out, &other, &src, 'p', false);
+	}
+	// > 16384 tiles: PMTiles leaf directories (sampled crash states, direct oracle only)
+	{
+		let src = gen_leafy();
+		emit(&mut out, &mut rng, &mut laws, &src, 'p', false, None);
+		if args.thorough() {
+			emit(&mut out, &mut rng, &mut laws, &src, 'v', false, None);
+		}
+	}
+	tar_prefix_observation(args, &mut out, &mut rng);
 	// through the real DataWriterFile: fresh path, then a different tile set over the completed file
 	for round in 0..args.n(10, 40) {
 		let mut a = gen_src(&mut rng, round % 5 == 4);
@@ -811,6 +940,7 @@ pub fn run(args: &Args) {
 		}
 	}
 	finish_laws(&mut out, laws);
+	out.notes.push("checklist: (1) thresholds – payloads of 999/1000/1001 bytes (de-duplication), 8191/8192/8193/16384 bytes (BufWriter of DataWriterFile), tiles on both sides of the 255/256 block border, > 16384 tiles (PMTiles leaf directories), block index > 255 bytes (second length byte); (2) the interruption IS the fault – source faults during a write are C06/C01's subject; (3) payload classes 1 byte, duplicates, larger than the writer's buffer; 0-byte payloads are excluded (both readers report them as absent in completed files: round-trip question); payloads are opaque to the writers, so undecodable / other-codec payloads make no difference here; (4) no options in the writers; (5) pre-existing longer and shorter files at the target path, fresh path; reuse of a writer object does not exist (consumed per run); (6) single-threaded writers: n.a.; (7) n.a.; (8) zoom 0–12, block borders; (9) readers are exercised on the real writers' crash states only – independent encoders are C16's; (10) crash state through the in-memory writer vs through the real file writer, lookups vs advertised coverage vs level streams. mbtiles / tar / directory are outside the property's statement (no completion marker: SQLite transactions, archive prefixes and partial directory trees are valid smaller containers by construction) – see extra.observation_tar_prefixes".into());
 	out.notes.push("out of model and out of this check: BufWriter / page-cache reordering below the DataWriterTrait level (a crash state here has the bytes of earlier operations on disk before those of later ones); a panic while opening a torn file counts as a failed open (see distribution *_open_panics)".into());
 	out.finish();
 }
